@@ -24,7 +24,17 @@ from concurrent.futures import ThreadPoolExecutor
 
 HERE = pathlib.Path(__file__).resolve().parent.parent
 WORK = HERE / ".work" / "mutsweep"
-REPO = pathlib.Path("/repo")
+LIVE = pathlib.Path("/repo")
+# everything (mutant generation, scratch copies, restoring files) works on ONE snapshot of /repo taken when `run`
+# starts, so that commits to /repo during a long sweep cannot disturb it
+REPO = pathlib.Path("/var/tmp/verif-mutsweep-base")
+
+
+def snapshot():
+    if REPO.exists():
+        shutil.rmtree(REPO)
+    subprocess.run(["rsync", "-a", "--exclude", ".git", "--exclude", "target", "--exclude", "__pycache__",
+                    str(LIVE) + "/", str(REPO) + "/"], check=True)
 
 CMP = {ast.Lt: ("<", "<="), ast.LtE: ("<=", "<"), ast.Gt: (">", ">="), ast.GtE: (">=", ">"),
        ast.Eq: ("==", "!="), ast.NotEq: ("!=", "=="), ast.Is: ("is", "is not"), ast.IsNot: ("is not", "is"),
@@ -144,6 +154,8 @@ def mutants_of(rel):
 
 
 def gen(args):
+    if not REPO.exists():
+        snapshot()
     rng = random.Random(args.seed)
     WORK.mkdir(parents=True, exist_ok=True)
     fm = file_map()
@@ -171,7 +183,7 @@ def make_scratch(i):
     if d.exists():
         shutil.rmtree(d)
     subprocess.run(["rsync", "-a", "--exclude", ".git", "--exclude", "target", "--exclude", "__pycache__",
-                    "/repo/", str(d) + "/"], check=True)
+                    str(REPO) + "/", str(d) + "/"], check=True)
     return d
 
 
@@ -204,6 +216,11 @@ def phase_a(slot, m):
 
 
 def run(args):
+    if args.fresh or not REPO.exists() or not (WORK / "mutants.jsonl").exists():
+        snapshot()
+        if (WORK / "results.jsonl").exists():
+            (WORK / "results.jsonl").unlink()
+        gen(args)
     ms = [json.loads(l) for l in open(WORK / "mutants.jsonl")]
     if args.limit:
         ms = ms[:args.limit]
@@ -266,6 +283,7 @@ def run(args):
               f"{'KILLED by ' + killed if killed else 'SURVIVED ' + json.dumps(verdicts)}", flush=True)
     for i in range(J):
         shutil.rmtree(f"/var/tmp/verif-mutsweep-{i}", ignore_errors=True)
+    shutil.rmtree(REPO, ignore_errors=True)
     report(args)
 
 
@@ -289,5 +307,6 @@ if __name__ == "__main__":
     ap.add_argument("--jobs", type=int, default=6)
     ap.add_argument("--limit", type=int, default=0)
     ap.add_argument("--all-checks", action="store_true")
+    ap.add_argument("--fresh", action="store_true", help="new snapshot of /repo, new mutant sample, forget results")
     a = ap.parse_args()
     {"gen": gen, "run": run, "report": report}[a.cmd](a)
